@@ -17,7 +17,9 @@ RULE = ("structures: periodic cells (orthorhombic, triclinic with + and − tilt
         "long patterns (angle × lever arm > tolerance although angle[rad] < atol[Å]); ~8 % hold ONE "
         "unperturbed copy whose long axis is (anti)parallel to the pattern's axis up to eps = 1e-9 … 1e-3 rad (turned by eps, "
         "π−eps, π, π+eps about axes perpendicular to it); ~3 % use a straight 10 Å 3-atom pattern next to a BENT group (middle "
-        "atom 6–11·atol off the axis, distances within 0.7·atol) that is not an occurrence; ~30 % of the calls pass axis hints axisp1/axisp2) given in a shifted frame (first atom not at the origin); replacement patterns derived from them "
+        "atom 6–11·atol off the axis, distances within 0.7·atol) that is not an occurrence; ~7 % of the replacement patterns have whole-number coordinates and are CONSTRUCTED from "
+        "plain ints (first search atom at a non-integer place); every 15th structure is a STAR: 3–4 occurrences of a two-atom "
+        "pattern sharing their first atom, partners numbered in random order, only a fraction of them replaced; ~30 % of the calls pass axis hints axisp1/axisp2) given in a shifted frame (first atom not at the origin); replacement patterns derived from them "
         "(all search atoms kept + atoms sticking 3–9 Å out, some kept + new, all new incl. one exactly on the first "
         "search atom, one element substituted, one atom re-placed 0.02–0.09 Å away with the same element, atoms on the pattern axis), every replacement atom tagged by a unique "
         "charge; replace_all on/off; each case is run a second time with search and replacement pattern moved jointly "
@@ -294,15 +296,37 @@ def tie(ctx, inp, op, out, model):
 
 # ------------------------------------------------------------------ running
 
+def atoms_with_int_positions(j):
+    """a term-free pattern built the way a user types it: coordinates as plain Python ints"""
+    from mofun import Atoms
+    rows = j["atoms"]
+    ty = j["types"]
+    ints = []
+    for r in rows:
+        f = [Fraction(v) for v in r["pos"]]
+        assert all(x.denominator == 1 for x in f)
+        ints.append(tuple(int(x) for x in f))
+    with core.quiet():
+        return Atoms(atom_types=[r["ty"] for r in rows], positions=ints, charges=[float(Fraction(r["q"])) for r in rows],
+                     groups=[r["g"] for r in rows], atom_type_elements=list(ty["elem"]), atom_type_labels=list(ty["label"]),
+                     atom_type_masses=[float(Fraction(m)) for m in ty["mass"]])
+
+
 def run_real(case, motion=None):
     pj, rj = case["p"], case["r"]
     if motion is not None:
         pj, rj = G.move_pattern_json(pj, motion), G.move_pattern_json(rj, motion)
+    real_from_json = core.atoms_from_json
+    if case.get("int_rp") and motion is None:
+        # the replacement pattern enters through the constructor with integer-typed coordinates
+        core.atoms_from_json = lambda j: atoms_with_int_positions(j) if j is rj else real_from_json(j)
     try:
         return findlib.run_replace(case["s"], pj, rj, atol=case["atol"], replace_all=case["replace_all"], seed=case["seed"],
                                    fraction=case.get("fraction", 1.0), hints=tuple(case.get("hints") or (None, None, None)))
     except (ValueError, OverflowError) as e:      # the result cannot be canonicalised: NaN / inf coordinates
         return {"err": "error:non-finite-result (%s)" % (str(e)[:60],), "used": None, "inputs_unchanged": True}
+    finally:
+        core.atoms_from_json = real_from_json
 
 
 def check_case(ctx, case, with_joint=True):
@@ -317,6 +341,8 @@ def check_case(ctx, case, with_joint=True):
     ctx.count("hints:%s" % ("none" if not any(v is not None for v in (case.get("hints") or [])) else "given"))
     ctx.count("exact180:%s" % info.get("exact180", False))
     ctx.count("tilted:%s" % bool(info.get("tilt_over_atol")))
+    ctx.count("int-typed-replacement:%s" % bool(case.get("int_rp")))
+    ctx.count("star:%s" % bool(info.get("star")))
     ctx.count("flip:%s" % (str(info.get("flip")).split("(")[0]))
     ctx.count("bent-decoy:%s" % (info.get("bent_decoy_h_over_atol") is not None))
     ctx.count("distorted:%s" % info.get("distorted", "none"))
@@ -365,6 +391,8 @@ def stratified(ctx, count):
         # must be the one of the match it is inserted for
         if i % 4 == 3:
             out[-1]["fraction"] = rng.choice([0.5, 0.75, 0.34, 0.6])
+        if i % 15 == 7 and len(out) < count:
+            out.append(G.make_star_case(rng, ctx.tier))     # occurrences sharing their first atom, part of them replaced
         i += 1
     return out
 
